@@ -121,7 +121,7 @@ theorem dynamic_nest (D : DynSpec) (S : EinsumS) (env : String → Pts) (t : Ter
   let I : List (Bool × Nat) → List TermSt → Prop := fun ls sts =>
     ∃ rem remE, ls = lv S.outRanks rem remE ∧ remE.length = rem.length ∧ Inv t D.rsU D.esU rem remE sts
   have hmain := runK_eq_specK I
-    (fun s => run ((D.rs'.zip D.es').map fun (r, e) => (S.outRanks.contains r, e)) (dynStates D s)) (spec (lv S.outRanks D.rsU D.esU))
+    (fun s => run ((D.rs'.zip D.es').map fun (r, e) => ((renameRanks D.K D.K0 S.outRanks).contains r, e)) (dynStates D s)) (spec (lv S.outRanks D.rsU D.esU))
     (by
       intro sts ⟨rem, remE, hl, hlen', hinv⟩ σ
       have hrem : rem = [] := by
@@ -205,7 +205,7 @@ def DynOKd (D : DynSpec) (out : List String) (ranks0 : List (List String)) : Pro
   D.esU.length = D.rsU.length ∧ D.es'.length = D.rs'.length ∧
   (D.K, extOf D.rsU D.esU D.K) ∈ D.rsU.zip D.esU ∧
   (D.rs'.zip D.es').Perm ((D.K1, extOf D.rsU D.esU D.K) :: (D.K0, extOf D.rsU D.esU D.K) :: (D.rsU.zip D.esU).erase (D.K, extOf D.rsU D.esU D.K)) ∧
-  D.K1 ≠ D.K0 ∧ (D.K1 ∉ D.rsU ∧ D.K0 ∉ D.rsU) ∧ D.K ∉ out ∧ concord D.rs' out = concord D.rsU out ∧
+  D.K1 ≠ D.K0 ∧ (D.K1 ∉ D.rsU ∧ D.K0 ∉ D.rsU) ∧ concord D.rs' (renameRanks D.K D.K0 out) = renameRanks D.K D.K0 (concord D.rsU out) ∧
   (∀ aR ∈ ranks0, concord D.rsU aR = aR) ∧ (∀ aR ∈ ranks0, D.K ∈ aR → aR.head? = some D.K) ∧
   (∀ aR ∈ ranks0, (splitRanks D.K D.K1 D.K0 aR).Nodup) ∧ (∀ aR ∈ ranks0, ∀ r ∈ splitRanks D.K D.K1 D.K0 aR, r ∈ D.rs') ∧
   (match ranks0[D.leadO]? with | some aL => D.K ∈ aL | none => False) ∧
@@ -217,9 +217,9 @@ instance (D : DynSpec) (out : List String) (ranks0 : List (List String)) : Decid
   cases ranks0[D.leadO]? <;> infer_instance
 
 theorem dynOK_of_d {D : DynSpec} {out : List String} {ranks0 : List (List String)} (h : DynOKd D out ranks0) : DynOK D out ranks0 := by
-  obtain ⟨h1, h2, h3, h4, h5, h6, h7, h8, h9, h10, h11, h12, h13, h14, h15, h16, h17, h18, h19, h20, h21⟩ := h
+  obtain ⟨h1, h2, h3, h4, h5, h6, h7, h8, h9, h10, h11, h13, h14, h15, h16, h17, h18, h19, h20, h21⟩ := h
   refine { ranks_eq := h1, leadT0 := h2, headU := h3, ndU := h4, nd' := h5, lenU := h6, len' := h7, memK := h8, perm' := h9, ne10 := h10,
-           freshU := h11, outK := h12, outc := h13, conc := h14, headK := h15, nd2 := h16, sub2 := h17, lead := ?_, ext2 := h19,
+           freshU := h11, outc := h13, conc := h14, headK := h15, nd2 := h16, sub2 := h17, lead := ?_, ext2 := h19,
            extK1 := h20, extK0 := h21 }
   cases hl : ranks0[D.leadO]? with
   | none => rw [hl] at h18; exact h18.elim
@@ -230,7 +230,8 @@ def DynHyps (D : DynSpec) (S : EinsumS) (env : String → Pts) (npre : Nat) : Pr
   match S.terms with
   | [t] => t.kind = .times ∧ S.loop = S.loop.take npre ++ D.rsU ∧ S.exts = S.exts.take npre ++ D.esU ∧
       (S.exts.take npre).length = (S.loop.take npre).length ∧
-      DynOKd D S.outRanks (t.tensors.map fun x => concord D.rsU x.ranks) ∧ S.loop.Nodup ∧ InBounds S env ∧ InputsWF S env
+      DynOKd D S.outRanks (t.tensors.map fun x => concord D.rsU x.ranks) ∧ S.loop.Nodup ∧ InBounds S env ∧ InputsWF S env ∧
+      (∀ r ∈ S.outRanks, r ∈ S.loop)
   | _ => False
 
 instance (D : DynSpec) (S : EinsumS) (env : String → Pts) (npre : Nat) : Decidable (DynHyps D S env npre) := by
@@ -244,7 +245,7 @@ theorem dynamic_nest' (D : DynSpec) (S : EinsumS) (env : String → Pts) (npre :
   unfold DynHyps at h
   split at h
   · rename_i t ht
-    obtain ⟨hk, hl, he, hp, hd, hnd, hb, hin⟩ := h
+    obtain ⟨hk, hl, he, hp, hd, hnd, hb, hin, _⟩ := h
     exact dynamic_nest D S env t _ _ ht hk hl he hp (dynOK_of_d hd) hnd hb hin τ
   · exact h.elim
 
